@@ -402,6 +402,10 @@ func (x *Exec) callWith(f *frame, in ssa.Instruction, c *ssa.CallCommon, args []
 				// call through a package-level function variable: the site is named after the variable
 				x.siteAssertions(st, in, g.Name(), args)
 			}
+			if fa, ok := ld.X.(*ssa.FieldAddr); ok {
+				// call through a function-valued struct field: the site is named after the field
+				x.siteAssertions(st, in, deref(fa.X.Type()).Underlying().(*types.Struct).Field(fa.Field).Name(), args)
+			}
 		}
 		if v, ok := x.externFuncValue(f, in, c, args); ok {
 			return v
